@@ -29,6 +29,7 @@ ATTRS = ["num_ref_instances", "num_pred_instances", "tp", "fp", "fn", "prec", "r
 
 def _cfgs():
     from panoptica.utils import SegmentationClassGroups, LabelGroup
+    from panoptica.utils.label_group import LabelMergeGroup
     return {
         "c1": (default_cfg(input="UNM", gm=["DSC"]), None),
         "c2": (default_cfg(input="MAT", dm="IOU", dthr=[1, 2], im=["DSC", "IOU", "RVD"], gm=["DSC", "IOU"], h=DISTINCT_H), None),
@@ -36,6 +37,10 @@ def _cfgs():
         # per-group overrides must not leak into later groups or later calls
         "c3": (default_cfg(input="SEM", matcher="naive", mm="IOU", thr=[1, 4], dm="IOU", dthr=[2, 3], im=["DSC", "IOU", "RVD"], gm=["DSC", "RVD"]),
                lambda: SegmentationClassGroups({"one": LabelGroup([1], single_instance=True), "rest": LabelGroup([2, 3])})),
+        # a merge group that covers EVERY non-zero label of the inputs (nothing to remove before it is
+        # binarised), then a sub-group: the caller's arrays and the later group must not see the binarisation
+        "c4": (default_cfg(input="SEM", im=["DSC", "IOU"], gm=["DSC"]),
+               lambda: SegmentationClassGroups({"whole": LabelMergeGroup([1, 2, 3]), "core": LabelGroup([2, 3])})),
         # a rejected configuration: the decision metric is not among the instance metrics (the constructor
         # accepts it, every use is refused); c1 and c5 have the constructor's default metric lists
         "c5": (default_cfg(input="UNM", gm=["DSC"], dm="clDSC", dthr=[1, 2]), None),
@@ -225,7 +230,7 @@ def random_history(rng, n):
         base = {"act": k, "e": 0, "c": "-", "inp": "-", "sgt": False, "ra": True, "log": False, "vb": False, "pool": "serial", "src": "-"}
         if k == "new_evaluator":
             nev += 1
-            c = rng.choice(["c1", "c1", "c2", "c3", "c5"])
+            c = rng.choice(["c1", "c1", "c2", "c3", "c4", "c5"])
             base.update(e=nev, c=c, sgt=rng.random() < 0.3,
                         src=rng.choice(["fresh", "shared", "shared", "default"] if c in ("c1", "c5") else ["fresh", "shared"]))
         else:
